@@ -33,6 +33,20 @@ pub proof fn lemma_move_injective(x: int, y: int, from: int, to: int)
     ensures x == y
 {}
 
+/// the map really is "where the same sheet goes" under Model::move_sheet (remove at `from`, insert at `to`; that shape is the
+/// proved postcondition of Model::move_sheet in unit modelatomic): for every sheet list s, the sheet at x ends up at moved_index(x)
+pub proof fn lemma_moved_index_tracks_sheet<T>(s: Seq<T>, x: int, from: int, to: int)
+    requires 0 <= x < s.len(), 0 <= from < s.len(), 0 <= to < s.len(), from != to
+    ensures
+        0 <= moved_index(x, from, to) < s.len(),
+        s.remove(from).insert(to, s[from])[moved_index(x, from, to)] == s[x],
+{}
+/// likewise for deletion: Model::delete_sheet removes index d; a selected sheet other than d is found again at the new index
+pub proof fn lemma_delete_tracks_sheet<T>(s: Seq<T>, x: int, d: int)
+    requires 0 <= x < s.len(), 0 <= d < s.len(), x != d
+    ensures s.remove(d)[if x > d { x - 1 } else { x }] == s[x]
+{}
+
 //@fn base/src/user_model/common.rs selected_sheet_after_delete
 //@spec
     ensures
